@@ -295,6 +295,25 @@ def case_reflection(ctx, cfg):
         if e is not None or not proj_eq(ts.array, want, 1e-12):
             ctx.fail(f"reflection:matrix:representative-times-{'complex' if isinstance(lam, complex) else 'real'}", "reflection", {**inputs, "representative_factor": lam}, want, e if e is not None else ts.array)
             return
+    # small representatives of the mirror (coefficients of order 1e-3 / 1e-4, as un-normalised results carry them): the
+    # reflection and h.mirror still agree, and mirror is still an involution
+    for lam in (1e-3, 1e-4):
+        Hs = (G.Line if dim == 2 else G.Plane)(np.array(h, dtype=float) * lam)
+        ts, e = ctx.call(G.reflection, Hs)
+        ctx.trace()
+        if e is not None or not proj_eq(ts.array, want, 1e-10):
+            ctx.fail("reflection:matrix:small-representative", "reflection", {**inputs, "representative_factor": lam}, want, e if e is not None else ts.array)
+            return
+        for p in [q + (1,) for q in affine_pts(dim, 1)][:: 2]:
+            if sum(a * b for a, b in zip(h, p)) == 0:
+                continue
+            wv = np.array([float(x) for x in X.matvec(householder(h), [F(x) for x in p])])
+            m, e = ctx.call(Hs.mirror, G.Point(np.array(p, dtype=float)))
+            m2, e2 = ctx.call(Hs.mirror, m) if e is None else (None, e)
+            ctx.trace(2)
+            if e2 is not None or not proj_eq(m.array, wv, 1e-8) or not proj_eq(m2.array, np.array(p, dtype=float), 1e-8):
+                ctx.fail(f"reflection:agrees-with-mirror:small-representative:{type(e2).__name__ if e2 is not None else 'value'}", "h.mirror(p), h.mirror(h.mirror(p))", {**inputs, "representative_factor": lam, "p": p}, wv, e2 if e2 is not None else [m.array, m2.array])
+                return
     t2, e = ctx.call(lambda: t * t)
     if e is not None or not proj_eq(t2.array, np.eye(dim + 1), 1e-12):
         ctx.fail("reflection:involution", "t*t", inputs, "identity", e if e is not None else t2.array)
